@@ -580,7 +580,9 @@ func Reversible(g *ach.File) bool {
 			return false
 		}
 		for _, e := range b.GetEntries() {
-			if _, ok := direction(e.TransactionCode); !ok || e.Amount == 0 || e.IndividualName == "OFFSET" {
+			// LoanPrenoteCredit / LoanZeroDollarRemittanceCredit have no debit counterpart (C13_reversible_set)
+			if _, ok := direction(e.TransactionCode); !ok || e.Amount == 0 || e.IndividualName == "OFFSET" ||
+				e.TransactionCode == ach.LoanPrenoteCredit || e.TransactionCode == ach.LoanZeroDollarRemittanceCredit {
 				return false
 			}
 		}
